@@ -362,10 +362,10 @@ func LoadTerminfo(name string) (*terminfo.Terminfo, string, error) {
 	if t.KeyShfRight == "\x1b[c" && t.KeyShfLeft == "\x1b[d" {
 		t.KeyShfUp = "\x1b[a"
 		t.KeyShfDown = "\x1b[b"
-		t.KeyCtrlUp = "\x1b[Oa"
-		t.KeyCtrlDown = "\x1b[Ob"
-		t.KeyCtrlRight = "\x1b[Oc"
-		t.KeyCtrlLeft = "\x1b[Od"
+		t.KeyCtrlUp = "\x1bOa"
+		t.KeyCtrlDown = "\x1bOb"
+		t.KeyCtrlRight = "\x1bOc"
+		t.KeyCtrlLeft = "\x1bOd"
 	}
 	if t.KeyShfHome == "\x1b[7$" && t.KeyShfEnd == "\x1b[8$" {
 		t.KeyCtrlHome = "\x1b[7^"
